@@ -335,6 +335,13 @@ func (s *Store[K, V]) GetWithSecodary(key K) (V, bool, error) {
 		// unregister before the shard lock is released: a Get that misses
 		// afterwards must ask the secondary cache again, not join this finished call
 		defer shard.vgroup.forget(key)
+		// a Set may have stored a newer value since this Get missed: the copy in
+		// the secondary cache is older than anything found in memory now
+		if e, ok := shard.get(key); ok {
+			if exp := e.expire.Load(); exp == 0 || exp > s.timerwheel.clock.NowNano() {
+				return e.value, nil
+			}
+		}
 		v, cost, expire, ok, err := s.secondaryCache.Get(key)
 		if err != nil {
 			return v, err
@@ -1319,6 +1326,13 @@ func (s *LoadingStore[K, V]) Get(ctx context.Context, key K) (V, error) {
 
 			// first try get from secondary cache
 			if s.secondaryCache != nil {
+				// a Set may have stored a newer value since this Get missed: the copy
+				// in the secondary cache is older than anything found in memory now
+				if e, ok := shard.get(key); ok {
+					if exp := e.expire.Load(); exp == 0 || exp > s.timerwheel.clock.NowNano() {
+						return Loaded[V]{Value: e.value}, nil
+					}
+				}
 				vs, cost, expire, ok, err := s.secondaryCache.Get(key)
 				var notFound *NotFound
 				if err != nil && !errors.As(err, &notFound) {
